@@ -84,6 +84,19 @@ def check_given(t, q0, r, n, freq, in_deg, norm_mag, cls, ref=None):
             t.fail("C20|accelerometers|not-reference-in-body-frame|%s" % cls, dict(case, k=k, got=S.accelerometers[k], want=want_a))
         if not maxdiff(S.magnetometers[k], want_m) <= 1e-12 * (1.0 if norm_mag else 5e4):
             t.fail("C20|magnetometers|not-reference-in-body-frame|%s" % cls, dict(case, k=k, got=S.magnetometers[k], want=want_m))
+        # the two other magnetometer arrays the object publishes: the same field in the ENU convention (north/east swapped, down negated)
+        # and the unit dip-only reference the object reports; with the normalised option every one of them has unit rows
+        for att, refv in (("magnetometers_enu", np.array([MREF[1], MREF[0], -MREF[2]], dtype=float)),
+                          ("magnetometers_nd", np.asarray(getattr(S, "reference_magnetic_vector_nd", np.full(3, np.nan)), dtype=float))):
+            if not hasattr(S, att):
+                continue
+            w_ = Rk.T @ refv
+            scale_ = 1.0 if (norm_mag or att == "magnetometers_nd") else 5e4
+            if norm_mag:
+                w_ = w_ / np.linalg.norm(w_)
+            g_ = np.asarray(getattr(S, att)[k], dtype=float)
+            if not maxdiff(g_, w_) <= 1e-12 * scale_:
+                t.fail("C20|%s|not-reference-in-body-frame|%s" % (att, cls), dict(case, k=k, got=g_, want=w_))
         # angular positions describe the same attitude
         from ahrs.common.quaternion import Quaternion
         qa = np.asarray(Quaternion(rpy=np.asarray(S.ang_pos[k], dtype=float)), dtype=float)
